@@ -1443,4 +1443,41 @@ theorem gjInverse_unique (C : Nat → Nat → Rat) (N : Nat) (P Q : Nat → Nat 
   have := key j hj
   exact sub_eq_zero.mp this
 
+/-! ## Round 5: the expression `_calculate_correlation` returns (`translate/gen_C10.py` reads it) -/
+
+open Pyunicorn.Generated.StructC10 in
+/-- **the model's normalisation is the source's**: `pcorrNumer` / `pcorrDenomSq` are generated on
+every run by evaluating `return - C_inv / norm`, `norm = np.sqrt(abs(np.outer(diag, diag)))`,
+`diag = C_inv.diagonal()[:]` of the working tree entry by entry; `normInvSq` is the signed square
+of that quotient.  Another sign, another mean of the diagonal entries, a dropped `abs` or another
+matrix in the numerator changes the generated definitions and breaks this proof. -/
+theorem normInv_is_source_expression (P : Nat → Nat → Rat) (i j : Nat) :
+    normInvSq P i j =
+      if pcorrDenomSq P i j = 0 then 0
+      else sgn (pcorrNumer P i j) * (pcorrNumer P i j * pcorrNumer P i j) / pcorrDenomSq P i j := by
+  unfold normInvSq pcorrDenomSq pcorrNumer qabs rabs
+  simp only [neg_mul_neg]
+
+open Pyunicorn.Generated.StructC10 in
+/-- the matrix handed to the inverse is the correlation (or covariance — `normInv_scale_invariant`:
+same result) matrix of the anomalies, `numpy.linalg.inv` runs exactly under the guard
+`det(C) != 0.0`, `pinv` otherwise -/
+theorem pcorr_source_branches :
+    (pcorrMatrixFn = "corrcoef" ∨ pcorrMatrixFn = "cov") ∧ pcorrGuard = "np.linalg.det(C) != 0.0" ∧
+      pcorrThen = "np.linalg.inv(C)" ∧ pcorrElse = "np.linalg.pinv(C)" := by decide
+
+open Pyunicorn.Generated.StructC10 in
+/-- **source expression = partial correlation**: the expression of the working tree, evaluated on
+the exact inverse of the covariance matrix of the series, is the partial correlation of `i` and `j`
+given all other series (signed squares), for every data set on which the elimination succeeds —
+by `partial_correlation_fails_iff_collinear` every data set without exactly collinear series -/
+theorem source_expression_is_partial_correlation (n N : Nat) (r : Nat → Nat → Rat)
+    (P : Nat → Nat → Rat) (h : gjInverse (fun a b => covTo n (r a) (r b)) N = some P) (i j : Nat)
+    (hi : i < N) (hj : j < N) (hij : i ≠ j) :
+    (if pcorrDenomSq P i j = 0 then 0
+      else sgn (pcorrNumer P i j) * (pcorrNumer P i j * pcorrNumer P i j) / pcorrDenomSq P i j) =
+      parCorrSqG (fun a b => covTo n (r a) (r b)) (othersOf N i j) i j := by
+  rw [← normInv_is_source_expression]
+  exact (model_partial_correlation n N r P h i j hi hj hij).1
+
 end Pyunicorn.Coupling
